@@ -69,7 +69,7 @@ Init == /\ l = 1
         /\ store = [ k \in Keys |-> Absent ]
         /\ pass = [ p \in PassIds |-> IdlePass ]
         /\ lw = [ valid |-> FALSE, e |-> Trace[1], conf |-> TRUE, confR |-> TRUE ]
-        /\ hist = [ succeeded |-> {}, archived |-> {}, creates |-> [ k \in Keys |-> 0 ], unpacked |-> [ k \in Keys |-> "" ] ]
+        /\ hist = [ succeeded |-> {}, archived |-> {}, creates |-> [ k \in Keys |-> 0 ], unpacked |-> [ k \in Keys |-> "" ], deployedFor |-> [ k \in Keys |-> <<"", "", "">> ] ]
         /\ scen = NoRow
 
 (* ---------------- helpers over a pass record ---------------- *)
@@ -158,7 +158,7 @@ TrReset ==
     /\ IsEv("Reset")
     /\ store' = [ k \in Keys |-> Absent ]
     /\ pass' = [ p \in PassIds |-> IdlePass ]
-    /\ hist' = [ succeeded |-> {}, archived |-> {}, creates |-> [ k \in Keys |-> 0 ], unpacked |-> [ k \in Keys |-> "" ] ]
+    /\ hist' = [ succeeded |-> {}, archived |-> {}, creates |-> [ k \in Keys |-> 0 ], unpacked |-> [ k \in Keys |-> "" ], deployedFor |-> [ k \in Keys |-> <<"", "", "">> ] ]
     /\ scen' = NoRow
     /\ Advance
 
@@ -375,7 +375,15 @@ TrWrite ==
                     unpacked  |-> IF IsPkgActor(E.actor) /\ E.ev = "StatusUpdate" /\ k = pr.target /\ pr.hasSnap
                                      /\ E.post.cr.hash # E.pre.cr.hash
                                     THEN [ hist.unpacked EXCEPT ![k] = pr.snap.cr.tmplHash ]
-                                  ELSE hist.unpacked ]
+                                  ELSE hist.unpacked,
+                    \* the Package spec (image, config, component) a deployment's template was last written from
+                    \* (the deployer creates the deployment with an empty template and fills it with an Update in the same pass)
+                    deployedFor |-> IF IsPkgActor(E.actor) /\ E.ev = "Update" /\ ~E.dry /\ pr.hasSnap /\ E.post.exists
+                                       /\ E.post.kind \in {"ObjectDeployment", "ClusterObjectDeployment"} /\ E.post.cr.tmplHash # E.pre.cr.tmplHash
+                                      THEN \* << before this write, now, incarnation of the deployment >>
+                                           [ hist.deployedFor EXCEPT ![k] = << IF @[3] = E.post.uid THEN @[2] ELSE "", pr.snap.cr.tmplHash, E.post.uid >> ]
+                                    ELSE IF E.pre.exists /\ ~E.post.exists THEN [ hist.deployedFor EXCEPT ![k] = <<"", "", "">> ]
+                                    ELSE hist.deployedFor ]
        /\ pass' = [ pass EXCEPT
              ![p].calls = @ + 1,
              ![p].apiErr = @ \/ (~ok /\ ~(IsDepActor(pr.actor) /\ E.ev = "Create" /\ E.res = "AlreadyExists")),
@@ -1094,6 +1102,15 @@ Inv_C16_ValidPackageDeploys ==
 Inv_C16_ChangedSpecIsPulled ==
     (PkgEnd /\ W.res = "ok" /\ ~PK.apiErr /\ ~PK.snap.cr.paused /\ ~PK.snap.deleting /\ PK.pulled = "")
     => (PK.snap.cr.hash # "" /\ hist.unpacked[PK.target] = PK.snap.cr.tmplHash)
+
+\* C13 at the level of the controller: rendering is a function of the package's files, its spec (image, config,
+\* component) and the environment of its namespace - with all of them unchanged (the harness never changes files or
+\* environment within a scenario) a re-render gives the same template: the Package controller changes the template of
+\* an existing deployment only when the Package spec differs from the one the template was last written from
+Inv_C13_UnchangedPackageKeepsTemplate ==
+    (lw.valid /\ IsPkgActor(W.actor) /\ W.ev = "Update" /\ ~W.dry /\ PR.hasSnap /\ W.pre.exists /\ W.post.exists
+       /\ W.post.kind \in {"ObjectDeployment", "ClusterObjectDeployment"} /\ W.pre.cr.tmplHash # W.post.cr.tmplHash)
+    => hist.deployedFor[W.key][1] # PR.snap.cr.tmplHash
 
 \* a Package whose spec is unchanged since it was unpacked is not pulled again
 Inv_C16_NoRepull ==
